@@ -302,6 +302,51 @@ pub fn crash_signal_of(status: &std::process::ExitStatus, stderr: &str) -> Optio
     None
 }
 
+/// Parent side: the batch child was killed and no single run reproduces it (memory corruption whose effect
+/// shows later, or a crash between runs). The replay file then names the batch itself; replaying it re-runs
+/// that batch (same VERIF_SEED, run count and worker count) in a fresh process. Best effort: such crashes are
+/// not guaranteed to repeat, which the file says.
+pub fn handle_batch_crash<E: Engine>(e: &E, opts: &BatchOpts, index: Option<u64>, signal: i32) -> i32 {
+    let prop = e.property();
+    let (quick_runs, _) = e.budget();
+    let runs = index.map(|i| i + 1 + 64).unwrap_or(opts.runs_override.unwrap_or(quick_runs));
+    let mut sig: Sig = Sig::new();
+    sig.insert("class".into(), "process-crash-in-batch".into());
+    sig.insert("signal".into(), signal.to_string());
+    let path = replay_path(prop, opts.seed, &sig);
+    let _ = std::fs::create_dir_all(path.parent().unwrap());
+    let obs = format!("the process running the batch was killed by signal {} inside the code under test; no single run reproduces it in a fresh process (memory corruption showing later?), so the replay re-runs the batch", signal);
+    let rf = ReplayFile {
+        engine: e.engine_name().into(),
+        property: prop.into(),
+        seed: opts.seed,
+        signature: sig.clone(),
+        observation: obs.clone(),
+        original_ops: 0,
+        case: json!({ "batch": { "verif_seed": opts.seed, "runs": runs, "workers": opts.workers, "tier": opts.tier.name() } }),
+    };
+    if std::fs::write(&path, serde_json::to_string_pretty(&rf).unwrap()).is_err() {
+        eprintln!("HARNESS-ERROR: cannot write replay {}", path.display());
+        return 2;
+    }
+    println!("violation: class=process-crash-in-batch seed={} run_index={:?} : {}", opts.seed, index, obs);
+    println!("VIOLATION property={} replay={}", prop, path.display());
+    if opts.write_evidence {
+        let info = e.info();
+        let ev = json!({
+            "property_id": prop, "tier": opts.tier.name(), "seed": opts.seed, "level": "exploration",
+            "coverage": { "evaluations": index.map(|i| i + 1).unwrap_or(0), "distinct_nontrivial": 0, "rule": info.rule,
+                "samples": [ { "outcome": "process crash, not attributable to one run", "batch": rf.case } ],
+                "components": { "real": info.real, "stub": info.stub } },
+            "assumptions": info.assumptions, "wall_s": 0.0, "violations": 1,
+        });
+        let p = Path::new(VERIF_DIR).join("evidence").join(format!("{}.json", prop));
+        let _ = std::fs::create_dir_all(p.parent().unwrap());
+        let _ = std::fs::write(&p, serde_json::to_string_pretty(&ev).unwrap());
+    }
+    1
+}
+
 /// Parent side: the batch child died in run (`seed`, `index`). Builds, minimises and verifies the replay.
 pub fn handle_crash<E: Engine>(e: &E, opts: &BatchOpts, seed: u64, index: u64, signal: i32) -> i32 {
     let prop = e.property();
@@ -327,9 +372,9 @@ pub fn handle_crash<E: Engine>(e: &E, opts: &BatchOpts, seed: u64, index: u64, s
     };
     let crashes = |c: &Case<E::Cfg, E::Op>| -> bool { write(c, &cand, "", 0) && child_crashes(&exe, prop, &cand).is_some() };
     if !crashes(&case) {
+        // e.g. heap corruption by an earlier run: the run that happened to be executing is not the culprit
         let _ = std::fs::remove_file(&cand);
-        eprintln!("HARNESS-ERROR: the batch crashed (signal {}) in run seed={} index={}, but that run alone does not crash in a fresh process", signal, seed, index);
-        return 2;
+        return handle_batch_crash(e, opts, Some(index), signal);
     }
     let deadline = Instant::now() + Duration::from_secs(if opts.tier == Tier::Quick { 30 } else { 90 });
     let small = shrink_with(e, &case, &crashes, deadline);
